@@ -295,9 +295,15 @@ def print_assumptions(pid, timeout=1200):
     with open(os.path.join(COQ, path)) as f:
         src = f.read()
     order = re.findall(r"Print Assumptions\s+(\w+)\s*\.", src)
+    local_names = set(re.findall(r"^\s*(?:Theorem|Lemma|Example|Definition|Corollary|Remark|Fact)\s+(\w+)", src, flags=re.M))
+    local_names |= set(re.findall(r"^\s*Check\s+\(?@?(\w+)\)?", src, flags=re.M))
     blocks = []
     cur = None
     for line in out.split("\n"):
+        # the echo of a following `Check name : stmt.` (name on its own line) ends an Axioms: block
+        m0 = re.match(r"^([A-Za-z_][\w']*)\s*(:|$)", line)
+        if cur is not None and m0 and m0.group(1) in local_names:
+            cur = None
         if line.startswith("Closed under the global context"):
             blocks.append([])
             cur = None
